@@ -320,7 +320,7 @@ def finish(pid, tier, seed, total, extra=None, max_replays=6):
     if cands and not violations and not known_hits and len(cands) > 1:
         # state carried from one object to the next (caches, class-level rebinding) only shows in a history: replay the
         # candidates as ONE sequence of calls in one fresh interpreter, as the exploring worker met them
-        seq = {'kind': 'sequence', 'property': pid, 'cases': [dict(c, property=pid) for c in cands[:40]],
+        seq = {'kind': 'sequence', 'property': pid, 'cases': [dict(c, property=pid) for c in (cands[:60] + cands[60::max(1, len(cands) // 90)])[:150]],
                'what': 'sequence of the counterexample inputs in one process'}
         spath = write_replay(pid, seq)
         ok, out = replay_file(spath)
